@@ -13,6 +13,8 @@ SLICES = {
     "crash":     (2, "K2_ok", 1, 1, 1, 0, 0, "FALSE", ["none", "shutdown_wait"], [], 2),
     "crash2":    (1, "K1_ok", 2, 2, 1, 0, 0, "FALSE", ["shutdown_wait"], [], 2),
     "huge":      (2, "K2_huge", 1, 2, 0, 0, 1, "FALSE", ["kill"], [], 2),
+    "leak":      (2, "K2_ok", 1, 1, 0, 0, 0, "FALSE", ["none", "shutdown_wait"], [], 3, 1),
+    "leak2":     (2, "K2_ok", 2, 2, 0, 1, 0, "TRUE", ["shutdown_wait", "shutdown_nowait"], [], 3, 1),
     "badarg":    (2, "K2_bad", 1, 1, 0, 0, 1, "FALSE", ["none", "shutdown_wait", "kill"], [], 2),
     "big":       (2, "K2_big", 1, 2, 1, 0, 0, "FALSE", ["none", "shutdown_wait"], [], 2),
     "kill":      (2, "K2_long", 1, 1, 0, 0, 1, "FALSE", ["kill"], [], 2),
@@ -25,11 +27,11 @@ SLICES = {
 }
 QUICK = {"C01": ["cancel", "timeout0", "crash", "kill", "init"], "C02": ["crash", "crash2", "init", "unload"],
          "C03": ["cancel", "timeout0"], "C04": ["badarg", "unload"], "C05": ["timeout0", "cancel"], "C06": ["kill"], "C20": ["huge"],
-         "C07": ["timeout0"], "C08": ["timeout0", "unload"]}
+         "C07": ["timeout0", "leak"], "C08": ["timeout0", "unload"]}
 # further slices of the thorough tier, per property (each is 1.7-14 M states, 1-8 minutes on 16 cores)
 THOROUGH_EXTRA = {"C01": ["timeout1", "del", "taskcrash", "crash_tmo", "mix3", "big", "unload", "badarg", "huge", "crash2"],
                   "C02": ["taskcrash", "crash_tmo", "big", "unload"], "C03": ["timeout1", "mix3"], "C04": ["mix3", "big"],
-                  "C05": ["timeout1", "del"], "C06": ["huge", "badarg"], "C07": ["timeout1", "timeout2", "crash_tmo"],
+                  "C05": ["timeout1", "del"], "C06": ["huge", "badarg"], "C07": ["timeout1", "timeout2", "crash_tmo", "leak2"],
                   "C08": ["timeout1", "mix3"], "C20": ["kill", "del"]}
 INVS = ["AtMostOnce", "CancelMeansNeverRun", "RightFuture", "SlotConservation", "BoundedParallelism", "BrokenTotal",
         "TimeoutNeverBreaks", "CleanHandshakeOnly", "NoTimeoutWhileHolding"]
@@ -39,14 +41,15 @@ CODE_SWITCHES = {k: v for k, v in json.load(open(os.path.join(tlc.SPECS, "code_s
 
 
 def write_cfg(work, name, switches=None, invariants=INVS, spec="SpecF", symmetry=True, extra=""):
-    K, kind, maxw, q, mc, mt, mx, hast, fops, initf, npids = SLICES[name]
+    K, kind, maxw, q, mc, mt, mx, hast, fops, initf, npids = SLICES[name][:11]
+    maxleak = SLICES[name][11] if len(SLICES[name]) > 11 else 0
     sw = dict(CODE_SWITCHES)
     if switches:
         sw.update(switches)
     pids = ", ".join("p%d" % i for i in range(1, npids + 1))
     initf = ", ".join(initf)
     lines = ["SPECIFICATION %s" % spec, "CONSTANTS", "  Pids = {%s}" % pids, "  MaxW = %d" % maxw, "  K = %d" % K,
-             "  Kind <- %s" % kind, "  QSize = %d" % q, "  MaxCrash = %d" % mc, "  MaxTimeout = %d" % mt, "  MaxCancel = %d" % mx,
+             "  Kind <- %s" % kind, "  QSize = %d" % q, "  MaxLeak = %d" % maxleak, "  MaxCrash = %d" % mc, "  MaxTimeout = %d" % mt, "  MaxCancel = %d" % mx,
              "  HasTimeout = %s" % hast, "  FinalOps = {%s}" % ", ".join('"%s"' % f for f in fops), "  InitFails = {%s}" % initf]
     lines += ["  %s = %s" % kv for kv in sw.items()]
     if symmetry:
@@ -121,7 +124,7 @@ KINDS = {"K1_ok": ["ok"], "K2_ok": ["ok", "ok"], "K2_bad": ["bad_arg", "ok"], "K
 def plan_from_behaviour(name, beh, seed):
     """one E-SIM case from one TLC behaviour of slice `name`: same tasks, same final operation, cancels, crashes at the
     program point TLC chose, thread priorities ordered like the mean position of each process in the behaviour"""
-    K, kind, maxw, q, mc, mt, mx, hast, fops, initf, npids = SLICES[name]
+    K, kind, maxw, q, mc, mt, mx, hast, fops, initf, npids = SLICES[name][:11]
     kinds = KINDS[kind]
     last = beh[-1][1]
     fop = str(last["fop"])
